@@ -95,7 +95,7 @@ class GDataConverter(XMLSchemaConverter):
                     result_dict[name] = item
                     continue
 
-                assert isinstance(item, MutableMapping) and xsd_child is not None
+                assert isinstance(item, MutableMapping)  # xsd_child is None for a kept unknown child
 
                 item = item[name]
                 if name in result_dict:
@@ -109,7 +109,7 @@ class GDataConverter(XMLSchemaConverter):
                         result_dict[name] = self.list_class((other, item))
                 else:
                     if xsd_type.name == XSD_ANY_TYPE or \
-                            has_single_group and xsd_child.is_single():
+                            has_single_group and xsd_child is not None and xsd_child.is_single():
                         result_dict[name] = item
                     else:
                         result_dict[name] = self.list_class((item,))
